@@ -733,16 +733,59 @@ enum Obj {
   Pmd(ParticipantMessageData),
 }
 
-fn make(ty: &str, present: Option<&[String]>, seed: u64) -> Result<Obj, String> {
+/// The values a reader assumes when the parameter is absent (DDS 1.4 QoS defaults, RTPS 2.5 table 9.14): the
+/// fields named in `dfl` get exactly these, the classic victims of "defaults need not be sent".
+fn default_valued(q: &mut QosPolicies, dfl: &[String], seed: u64) {
+  let d = |f: &str| dfl.iter().any(|x| x == f);
+  if d("durability") {
+    q.durability = Some(policy::Durability::Volatile);
+  }
+  if d("presentation") {
+    q.presentation = Some(policy::Presentation { access_scope: policy::PresentationAccessScope::Instance, coherent_access: false, ordered_access: false });
+  }
+  if d("deadline") {
+    q.deadline = Some(policy::Deadline(Duration::INFINITE));
+  }
+  if d("latency_budget") {
+    q.latency_budget = Some(policy::LatencyBudget { duration: Duration::ZERO });
+  }
+  if d("ownership") {
+    q.ownership = Some(if seed % 3 == 0 { policy::Ownership::Shared } else { policy::Ownership::Exclusive { strength: 0 } });
+  }
+  if d("liveliness") {
+    q.liveliness = Some(policy::Liveliness::Automatic { lease_duration: Duration::INFINITE });
+  }
+  if d("time_based_filter") {
+    q.time_based_filter = Some(policy::TimeBasedFilter { minimum_separation: Duration::ZERO });
+  }
+  if d("reliability") {
+    q.reliability = Some(if seed % 2 == 0 { policy::Reliability::BestEffort } else { policy::Reliability::Reliable { max_blocking_time: Duration::from_millis(100) } });
+  }
+  if d("destination_order") {
+    q.destination_order = Some(policy::DestinationOrder::ByReceptionTimestamp);
+  }
+  if d("history") {
+    q.history = Some(policy::History::KeepLast { depth: 1 });
+  }
+  if d("resource_limits") {
+    q.resource_limits = Some(policy::ResourceLimits { max_samples: -1, max_instances: -1, max_samples_per_instance: -1 });
+  }
+  if d("lifespan") {
+    q.lifespan = Some(policy::Lifespan { duration: Duration::INFINITE });
+  }
+}
+
+fn make(ty: &str, present: Option<&[String]>, dfl: &[String], seed: u64) -> Result<Obj, String> {
   let mut r = Rng(seed.wrapping_mul(0x2545F4914F6CDD1D) | 1);
   let has = |f: &str| -> bool { present.map(|p| p.iter().any(|x| x == f)).unwrap_or(true) };
+  let isd = |f: &str| -> bool { dfl.iter().any(|x| x == f) };
   let optv = |f: &str, v: Vec<Locator>| -> Vec<Locator> { if has(f) { v } else { vec![] } };
   Ok(match ty {
     "spdp" => {
       let (mu, mm, du, dm) = (r.locs(), r.locs(), r.locs(), r.locs());
-      let lease = r.dur();
+      let lease = if isd("lease_duration") { Duration::from_secs(100) } else { r.dur() };
       let beq = BuiltinEndpointQos::read_from_buffer_with_ctx(Endianness::LittleEndian, &(r.below(2) as u32).to_le_bytes()).map_err(|e| e.to_string())?;
-      let name = r.string();
+      let name = if isd("entity_name") { String::new() } else { r.string() };
       Obj::Spdp(SpdpDiscoveredParticipantData {
         updated_time: chrono::DateTime::<chrono::Utc>::MIN_UTC,
         protocol_version: ProtocolVersion { major: 2, minor: r.below(6) as u8 },
@@ -773,7 +816,8 @@ fn make(ty: &str, present: Option<&[String]>, seed: u64) -> Result<Obj, String> 
       let (ul, ml) = (r.locs(), r.locs());
       let pk = r.guid();
       let (tn, ty_n) = (r.string(), r.string());
-      let q = r.qos();
+      let mut q = r.qos();
+      default_valued(&mut q, dfl, seed);
       let cf = ContentFilterProperty {
         content_filtered_topic_name: r.string() + "c",
         related_topic_name: r.string() + "r",
@@ -792,8 +836,9 @@ fn make(ty: &str, present: Option<&[String]>, seed: u64) -> Result<Obj, String> 
       let (ul, ml) = (r.locs(), r.locs());
       let pk = r.guid();
       let (tn, ty_n) = (r.string(), r.string());
-      let q = r.qos();
-      let max = r.next() as u32;
+      let mut q = r.qos();
+      default_valued(&mut q, dfl, seed);
+      let max = if isd("data_max_size_serialized") { 0 } else { r.next() as u32 };
       let (sin, rk, al) = (r.string(), r.guid(), vec![r.string(), r.string()]);
       let mut p = PublicationBuiltinTopicData::new_with_qos(g, if has("participant_key") { Some(pk) } else { None }, tn, ty_n, &keep_qos(&q, &has), None);
       if has("service_instance_name") {
@@ -819,11 +864,13 @@ fn make(ty: &str, present: Option<&[String]>, seed: u64) -> Result<Obj, String> 
     "dtd" => {
       let k = r.guid();
       let (n, t) = (r.string(), r.string());
-      let q = r.qos();
+      let mut q = r.qos();
+      default_valued(&mut q, dfl, seed);
       Obj::Dtd(DiscoveredTopicData::new(chrono::DateTime::<chrono::Utc>::MIN_UTC, TopicBuiltinTopicData::new(if has("key") { Some(k) } else { None }, n, t, &keep_qos(&q, &has))))
     }
     "qos" => {
-      let q = r.qos();
+      let mut q = r.qos();
+      default_valued(&mut q, dfl, seed);
       Obj::Qos(keep_qos(&q, &has))
     }
     "pmd" => Obj::Pmd(ParticipantMessageData {
@@ -844,10 +891,35 @@ fn rep(le: bool) -> RepresentationIdentifier {
   }
 }
 
+/// What a peer learns of an endpoint's QoS: the QoS travels inside a DiscoveredReaderData / DiscoveredWriterData
+/// announcement, serialised as PL_CDR and read back, exactly as SEDP does it.
+pub fn qos_over_the_wire(q: &QosPolicies, of_reader: bool, le: bool) -> Result<QosPolicies, String> {
+  let es = |x: crate::serialization::pl_cdr_adapters::PlCdrSerializeError| format!("{x:?}");
+  let ed = |x: crate::serialization::pl_cdr_adapters::PlCdrDeserializeError| format!("{x:?}");
+  let g = GUID::from_bytes([7u8; 16]);
+  if of_reader {
+    let d = DiscoveredReaderData {
+      reader_proxy: ReaderProxy::new(g, false, vec![], vec![]),
+      subscription_topic_data: SubscriptionBuiltinTopicData::new(g, None, "T".to_string(), "VSample".to_string(), q, None),
+      content_filter: None,
+    };
+    let bytes = d.to_pl_cdr_bytes(rep(le)).map_err(es)?;
+    Ok(DiscoveredReaderData::from_pl_cdr_bytes(&bytes, rep(le)).map_err(ed)?.subscription_topic_data.qos())
+  } else {
+    let d = DiscoveredWriterData {
+      last_updated: std::time::Instant::now(),
+      writer_proxy: WriterProxy { remote_writer_guid: g, unicast_locator_list: vec![], multicast_locator_list: vec![], data_max_size_serialized: None },
+      publication_topic_data: PublicationBuiltinTopicData::new_with_qos(g, None, "T".to_string(), "VSample".to_string(), q, None),
+    };
+    let bytes = d.to_pl_cdr_bytes(rep(le)).map_err(es)?;
+    Ok(DiscoveredWriterData::from_pl_cdr_bytes(&bytes, rep(le)).map_err(ed)?.publication_topic_data.qos())
+  }
+}
+
 /// serialised form of the generated object (parameter list; plain CDR for "pmd")
-pub fn pl_serialize(ty: &str, present: &[String], seed: u64, le: bool) -> Result<Vec<u8>, String> {
+pub fn pl_serialize(ty: &str, present: &[String], dfl: &[String], seed: u64, le: bool) -> Result<Vec<u8>, String> {
   let e = |x: crate::serialization::pl_cdr_adapters::PlCdrSerializeError| format!("{x:?}");
-  Ok(match make(ty, Some(present), seed)? {
+  Ok(match make(ty, Some(present), dfl, seed)? {
     Obj::Spdp(o) => o.to_pl_cdr_bytes(rep(le)).map_err(e)?.to_vec(),
     Obj::Drd(o) => o.to_pl_cdr_bytes(rep(le)).map_err(e)?.to_vec(),
     Obj::Dwd(o) => o.to_pl_cdr_bytes(rep(le)).map_err(e)?.to_vec(),
@@ -903,8 +975,8 @@ const QOS_ALL: [&str; 12] = ["durability", "presentation", "deadline", "latency_
 
 /// Deserialises `bytes` with the real code and compares field by field with the object generated
 /// from (ty, seed) with ALL fields set.  Err = the deserialiser rejected the bytes.
-pub fn pl_deserialize_and_compare(ty: &str, seed: u64, le: bool, bytes: &[u8]) -> Result<Vec<(String, String)>, String> {
-  let full = make(ty, None, seed)?;
+pub fn pl_deserialize_and_compare(ty: &str, dfl: &[String], seed: u64, le: bool, bytes: &[u8]) -> Result<Vec<(String, String)>, String> {
+  let full = make(ty, None, dfl, seed)?;
   let mut o: Vec<(String, String)> = vec![];
   let mut p = |n: &str, s: &str| o.push((n.to_string(), s.to_string()));
   let e = |x: crate::serialization::pl_cdr_adapters::PlCdrDeserializeError| format!("{x:?}");
